@@ -13,7 +13,7 @@ import (
 func init() { register("C18", true, runC18) }
 
 func runC18(c *Check) {
-	c.Explanation = "Decides the escaping discipline behind C18 for every name: each operand written to the DOT builder (every fmt.Fprint* on the builder in package graph) is traced back through concatenation, formatting, local struct copies and module callees; any string that can come from a struct field or parameter without passing through escapeForDot/escapeAllForDot is reported with its source (R1; value-format callbacks and fields that are never assigned in non-test code are treated as inert and listed). The callgrind emitter takes every ob=/fl=/fn=/cfl=/cfn= payload from callgrindName with one table per name space (files shared by fl/cfl, functions by fn/cfn), and callgrindName hands out '(n)' only on a table hit and defines new ids as len+1 together with the name (R2). HTML pages are rendered only by html/template (no text/template import) and the typed-string conversions that bypass escaping are exactly HTML(dot's svg) and JS(json.Marshal result) (R3). Not decided: validity of the document as a whole, callgrind position compression, newline characters inside callgrind names."
+	c.Explanation = "Decides the escaping discipline behind C18 for every name: each operand written to the DOT builder (every fmt.Fprint* on the builder in package graph) is traced back through concatenation, formatting, local struct copies and module callees; any string that can come from a struct field or parameter without passing through escapeForDot/escapeAllForDot is reported with its source (R1; value-format callbacks and fields that are never assigned in non-test code are treated as inert and listed). The callgrind emitter takes every ob=/fl=/fn=/cfl=/cfn= payload from callgrindName with one table per name space (files shared by fl/cfl, functions by fn/cfn), and callgrindName hands out '(n)' only on a table hit and defines new ids as len+1 together with the name (R2). HTML pages are rendered only by html/template (no text/template import) and the typed-string conversions that bypass escaping are exactly HTML(dot's svg) and JS(json.Marshal result) (R3). Also: the base of callgrind's relative positions is advanced on every cost line (R2). Not decided: validity of the document as a whole, the subposition arithmetic of callgrindAddress, newline characters inside callgrind names."
 	c.dotTaint()
 	c.callgrindRules()
 	c.htmlRules()
@@ -307,6 +307,62 @@ func (c *Check) callgrindRules() {
 		}
 	}
 	c.Floor("C18-R2", 10)
+
+	// Relative positions: callgrindAddress compresses an address against the previous
+	// cost line, so the base handed to it must be advanced on every node: the loop-carried
+	// base of printCallgrind's node loop takes, on every back edge, the address of the
+	// current node's Info (never its own previous value).
+	var basePhi *ssa.Phi
+	for _, b := range pc.Blocks {
+		for _, ins := range b.Instrs {
+			call, ok := ins.(*ssa.Call)
+			if !ok || call.Call.StaticCallee() == nil || call.Call.StaticCallee().Name() != "callgrindAddress" {
+				continue
+			}
+			if ph, ok := call.Call.Args[0].(*ssa.Phi); ok {
+				basePhi = ph
+			}
+		}
+	}
+	if basePhi == nil {
+		c.undecided("C18-R2", "position-base", p.relFile(pc.Pos()), "the base of callgrindAddress is not a loop-carried value of printCallgrind")
+	} else {
+		bad := ""
+		var flat func(v ssa.Value, seen map[ssa.Value]bool)
+		flat = func(v ssa.Value, seen map[ssa.Value]bool) {
+			if seen[v] {
+				return
+			}
+			seen[v] = true
+			switch x := v.(type) {
+			case *ssa.Phi:
+				if x == basePhi {
+					bad = "its own previous value"
+					return
+				}
+				for _, e := range x.Edges {
+					flat(e, seen)
+				}
+			case *ssa.FieldAddr:
+				if _, F := fieldOf(x.X.Type(), x.Field); F != "Info" {
+					bad = describeValue(v)
+				}
+			default:
+				bad = describeValue(v)
+			}
+		}
+		for i, e := range basePhi.Edges {
+			if !basePhi.Block().Dominates(basePhi.Block().Preds[i]) {
+				continue // entering edge (nil)
+			}
+			flat(e, map[ssa.Value]bool{})
+		}
+		if bad == "" {
+			c.ok("C18-R2", "position-base", p.relFile(basePhi.Pos()), "relative positions are computed against the previous cost line", "the base is set to the current node's Info on every iteration")
+		} else {
+			c.bad("C18-R2", "position-base", p.relFile(basePhi.Pos()), "printCallgrind does not advance the base of relative positions on every node (it can keep "+bad+"): from the third cost line of a block on, +n/-n offsets are relative to the wrong line and a reader reconstructs wrong addresses")
+		}
+	}
 }
 
 func variadicValues(v ssa.Value) []ssa.Value {
